@@ -199,7 +199,23 @@ def nearest_def(fn_node, stmt, name: str, chains=None) -> Optional[ast.AST]:
     return None
 
 
-def expand_names(fn_node, stmt, expr, depth=3, chains=None):
+def _expandable(v, allow_calls=()) -> bool:
+    """a definition that may be substituted for its name when comparing expressions: built from names, attributes,
+    subscripts, operators, comprehensions and calls of pure functions / getters only"""
+    from .canon import PURE_CALLS, PURE_METHODS, PURE_METHOD_PREFIX
+    for n in ast.walk(v):
+        if isinstance(n, (ast.Yield, ast.YieldFrom, ast.Await, ast.NamedExpr, ast.Lambda, ast.Starred)):
+            return False
+        if isinstance(n, ast.Call):
+            f = n.func
+            nm = f.attr if isinstance(f, ast.Attribute) else (f.id if isinstance(f, ast.Name) else '')
+            if nm in PURE_CALLS or nm in allow_calls or (isinstance(f, ast.Attribute) and (nm in PURE_METHODS or nm.startswith(PURE_METHOD_PREFIX))):
+                continue
+            return False
+    return True
+
+
+def expand_names(fn_node, stmt, expr, depth=3, chains=None, allow_calls=()):
     """expr with local names replaced by their nearest simple definitions (slices, attributes, names, calls of
     pure-looking methods); used to compare expressions written through different intermediate locals"""
     import copy as _copy
@@ -211,9 +227,8 @@ def expand_names(fn_node, stmt, expr, depth=3, chains=None):
             if isinstance(n.ctx, ast.Load) and n.id not in params and depth > 0:
                 v = nearest_def(fn_node, stmt, n.id, chains)
                 if v is not None and isinstance(v, (ast.Subscript, ast.Attribute, ast.Name, ast.Call, ast.BinOp, ast.Compare, ast.BoolOp, ast.IfExp, ast.Constant, ast.UnaryOp)):
-                    from .canon import _pure
-                    if _pure(v, True):
-                        return expand_names(fn_node, stmt, _copy.deepcopy(v), depth - 1, chains)
+                    if _expandable(v, allow_calls):
+                        return expand_names(fn_node, stmt, _copy.deepcopy(v), depth - 1, chains, allow_calls)
             return n
     return R().visit(_copy.deepcopy(expr))
 
